@@ -56,7 +56,7 @@ CLAIMS.update({
         technique="MIR abstract interpretation: must-pass-through / pairing rules on every path",
         ref="3/C06"),
     "C07": dict(
-        text="Static, per-step obligations: QoS 2 PUBLISH notified only when first seen (handled-set insert true), duplicates answered with PUBREC when connected; PUBREL and failing PUBREC release the mark; a first-seen message is notified or un-marked before return; new session empties the set; who-may-write reference list. Not decided: exactly-once over arbitrary histories (these are the inductive steps).",
+        text="Static, per-step obligations: QoS 2 PUBLISH notified only when first seen (handled-set insert true), duplicates answered with PUBREC when connected; PUBREL and failing PUBREC release the mark; a first-seen message is notified or un-marked before return; new session (and the close of a session that is not stored) empties the set; helper-transitive who-may-write reference list. Not decided: exactly-once over arbitrary histories (these are the inductive steps).",
         note=TB + "Known finding F13 (mark left behind on the TopicAliasInvalid exits) listed in known_findings.jsonl.",
         technique="MIR abstract interpretation: guard-dominates-notification and pairing rules on every path",
         ref="3/C07"),
@@ -69,7 +69,7 @@ CLAIMS.update({
 
 CLAIMS.update({
     "C13": dict(
-        text="Static, structural obligations on all paths: a caller-supplied empty topic is emitted only after a successful send-table lookup; recording a binding is always followed by the emission that carries the topic (no refusal reachable after insert_or_update); automatic substitution uses find_by_topic on the connection's table and only when Connected; receive side looks up or reports TopicAliasInvalid and never delivers on that exit, range check dominates registration; tables are created only in the handshake handlers from a non-zero Topic Alias Maximum. Not decided: LRU order correctness and agreement with an independent receiver model over sequences.",
+        text="Static, structural obligations on all paths: a caller-supplied empty topic is emitted only after a successful send-table lookup; recording a binding is always followed by the emission that carries the topic (no refusal reachable after insert_or_update); automatic substitution uses find_by_topic on the connection's table and only when Connected, an automatically chosen binding is recorded only on emitting paths; receive side looks up or reports TopicAliasInvalid and never delivers on that exit, range check dominates registration, a topic carried with an alias is bound whether or not the packet is delivered; tables are created only in the handshake handlers from a non-zero Topic Alias Maximum. Not decided: LRU order correctness and agreement with an independent receiver model over sequences.",
         note=TB,
         technique="MIR abstract interpretation: must-precede / no-refusal-after-binding rules",
         ref="3/C13"),
@@ -100,9 +100,9 @@ CLAIMS.update({
         technique="MIR abstract interpretation: call-graph acyclicity + table duality + sibling agreement",
         ref="3/C01"),
     "C02": dict(
-        text="Static, narrow: sibling agreement of the serialisers - for each of the 70 types with both serialisers the guarded sequence of appended sources of to_continuous_buffer and to_buffers is identical for every guard valuation (necessary and sufficient for contiguous == vectored bytes); size() wiring and enum dispatch forwarding. NOT decided: parse(encode(x)) == x, remaining_length arithmetic per field combination.",
-        note=TB + "Value-level round trip is outside this family.",
-        technique="MIR abstract interpretation: sibling implementations compared per guard valuation",
+        text="Static, narrow: sibling agreement of the serialisers - for each of the 70 types with both serialisers the guarded sequence of appended sources of to_continuous_buffer and to_buffers is identical for every guard valuation (necessary and sufficient for contiguous == vectored bytes); size() wiring and enum dispatch forwarding; length accounting of all 29 builders: on every accepting path of build() the Remaining Length formula (and each property-length field) equals, as a linear form over position-free size atoms, the sum of the sources the packet's own serialiser emits when applied to the value that path built (every optional-field combination the builder accepts; found and fixed F21). NOT decided: parse(encode(x)) == x, the leaf encoders (x.size() == bytes of x).",
+        note=TB + "Value-level round trip is outside this family; the length accounting decides the formula, not the leaf encoders.",
+        technique="MIR abstract interpretation: sibling implementations compared per guard valuation; abstract composition serialiser(build-result) with linear entailment",
         ref="3/C02"),
     "C03": dict(
         text="Static, tables only (exact): every wire constant (packet types, fixed headers incl. reserved flag nibbles, 27 property ids, QoS/retain/payload-format, protocol levels, all reason-code enums both directions with names, MqttError wire range, MqttError->DisconnectReasonCode, success/failure partitions), property data types and Property::parse dispatch, the fixed header stored by each build/parse, PUBLISH flag masks, per-kind field order by type, and absence of non-big-endian conversions are compared with the transcribed OASIS tables. NOT decided: per-value encodings.",
@@ -110,7 +110,7 @@ CLAIMS.update({
         technique="exact table extraction (evaluated discriminants, field types, MIR match tables, serialiser order) vs specification tables",
         ref="3/C03"),
     "C09": dict(
-        text="Static, narrow: recv() feeds once and handles every build result; feed resets (reset proved equal to new()) on every Complete/Error return; every byte read is appended / written in place with offset and remaining length advanced; the remaining-length state machine is explored exactly over its multiplier domain (at most four bytes, no overflow, error + reset on the fifth). NOT decided: equality of event sequences over all chunkings.",
+        text="Static, narrow: recv() feeds once, never moves the cursor itself, and handles every build result; feed resets (reset proved equal to new()) on every Complete/Error return; every byte read is appended / written in place with offset and remaining length advanced; the remaining-length state machine is explored exactly over its multiplier domain (at most four bytes, no overflow, error + reset on the fifth). NOT decided: equality of event sequences over all chunkings.",
         note=TB,
         technique="MIR abstract interpretation + exact finite-domain exploration of the length decoder",
         ref="3/C09"),
@@ -118,7 +118,7 @@ CLAIMS.update({
 
 CLAIMS.update({
     "C04": dict(
-        text="Static: panic-site ledger over every decoder function (all parse/decode* under mqtt::packet and everything they reach, ~100 functions): each MIR assert, unwrap, slice/array/str index, copy_from_slice and precondition met on some abstract path is discharged mechanically - constants and path constraints, linear entailment over path facts with the slicing algebra and callee post-conditions, type intervals, A-RL/A-MEM - or is one of 9 audited ledger entries; every decoder is proved to report consumed <= len(input); loops classified as terminating; UTF-8 typestate; every id-carrying parser rejects id 0 and PUBLISH rejects QoS 3. NOT decided: size()/re-parse equality of accepted non-canonical input, trailing bytes.",
+        text="Static: panic-site ledger over every decoder function (all parse/decode* under mqtt::packet and everything they reach, ~100 functions): each MIR assert, unwrap, slice/array/str index, copy_from_slice and precondition met on some abstract path is discharged mechanically - constants and path constraints, linear entailment over path facts with the slicing algebra and callee post-conditions, type intervals, A-RL/A-MEM - or is one of 9 audited ledger entries; every decoder is proved to report consumed <= len(input); loops classified as terminating; UTF-8 typestate; every id-carrying parser rejects id 0 and PUBLISH rejects QoS 3; every property list a v5.0 parser accepts was validated by the builder's validator and is the one stored; leaf decoders accept only canonical encodings (consumed == encoded size of the returned value: found and fixed F22, non-minimal variable byte integers); an accepted packet's Remaining Length / property lengths equal what its serialiser emits (under A-LEAF for the per-property loops). NOT decided: re-parse equality, trailing bytes.",
         note=TB + "Assumptions A-MEM (lengths < 2^56) and A-RL (inputs <= 268 435 455 bytes). Audited ledger entries are not re-proved when code near them changes; a new site or a lost mechanical discharge is reported.",
         technique="panic-site enumeration from MIR + linear-inequality / interval discharge (no solver) + audited ledger",
         ref="3/C04, 0.1"),
